@@ -84,6 +84,8 @@ package nsqlookupd
 //@   ensures[both-listeners-open] result1 == nil ==> r5GListens == old(r5GListens) + 2 && r5GListenOK == old(r5GListenOK) + 2 &&
 //@        result0.tcpListener != nil && result0.tcpListener == r5GPrevListener && r5GPrevListenAddr == opts.TCPAddress &&
 //@        result0.httpListener != nil && result0.httpListener == r5GLastListener && r5GLastListenAddr == opts.HTTPAddress
+//   (round 6, area M) both listeners are TCP listeners (net.Listen("tcp", ..)): what RealTCPAddr / RealHTTPAddr (IDENTIFY's answer) rely on
+//@   ensures[listeners-are-tcp] result1 == nil ==> r6MTcpL(result0.tcpListener) && r6MTcpL(result0.httpListener)
 //@   ensures[listen-error-returned] r5GListens > old(r5GListens) && r5GLastListenErr != nil ==> result1 != nil
 //@   ensures[at-most-two-listens] r5GListens >= old(r5GListens) + 1 && r5GListens <= old(r5GListens) + 2
 //@   ensures[daemon-keeps-both-listeners-open] result1 == nil ==> r5GLsnCloses == old(r5GLsnCloses)
@@ -128,6 +130,38 @@ package nsqlookupd
 // route is registered under its method: the read-only views under GET, every state-changing call under POST only ("METHOD path" strings recorded
 // by the assumed contracts of Router.Handle / HandlerFunc / Handler); 21 routes in all (12 API, 9 pprof).
 //@ pred r5GRoute(m string, p string) := setin(r5GRoutes, m + " " + p)
+// (round 6, area M) HANDLER IDENTITY. The documented table row by row: method, path, the handler (fnname of the bound method of THIS server that
+// http_api.Decorate was given), the number of decorators and the LAST decorator = the outermost wrapper, the one that turns the handler's
+// (value, error) into the response (V1 for the API: the status is the Code of the http_api.Err the handler returned; PlainText for /ping).
+// pprof pages: the net/http/pprof function, or the profile name given to pprof.Handler. The state-changing calls are the five POST rows.
+//@ pred r6MLkApiRoute(m string, p string, h string, n int, last string) :=
+//@        (m == "GET" && p == "/ping" && h == "(*github.com/nsqio/nsq/nsqlookupd.httpServer).pingHandler" && n == 2 && last == "github.com/nsqio/nsq/internal/http_api.PlainText") ||
+//@        (m == "GET" && p == "/info" && h == "(*github.com/nsqio/nsq/nsqlookupd.httpServer).doInfo" && n == 2 && last == "github.com/nsqio/nsq/internal/http_api.V1") ||
+//@        (m == "GET" && p == "/debug" && h == "(*github.com/nsqio/nsq/nsqlookupd.httpServer).doDebug" && n == 2 && last == "github.com/nsqio/nsq/internal/http_api.V1") ||
+//@        (m == "GET" && p == "/lookup" && h == "(*github.com/nsqio/nsq/nsqlookupd.httpServer).doLookup" && n == 2 && last == "github.com/nsqio/nsq/internal/http_api.V1") ||
+//@        (m == "GET" && p == "/topics" && h == "(*github.com/nsqio/nsq/nsqlookupd.httpServer).doTopics" && n == 2 && last == "github.com/nsqio/nsq/internal/http_api.V1") ||
+//@        (m == "GET" && p == "/channels" && h == "(*github.com/nsqio/nsq/nsqlookupd.httpServer).doChannels" && n == 2 && last == "github.com/nsqio/nsq/internal/http_api.V1") ||
+//@        (m == "GET" && p == "/nodes" && h == "(*github.com/nsqio/nsq/nsqlookupd.httpServer).doNodes" && n == 2 && last == "github.com/nsqio/nsq/internal/http_api.V1") ||
+//@        (m == "POST" && p == "/topic/create" && h == "(*github.com/nsqio/nsq/nsqlookupd.httpServer).doCreateTopic" && n == 2 && last == "github.com/nsqio/nsq/internal/http_api.V1") ||
+//@        (m == "POST" && p == "/topic/delete" && h == "(*github.com/nsqio/nsq/nsqlookupd.httpServer).doDeleteTopic" && n == 2 && last == "github.com/nsqio/nsq/internal/http_api.V1") ||
+//@        (m == "POST" && p == "/channel/create" && h == "(*github.com/nsqio/nsq/nsqlookupd.httpServer).doCreateChannel" && n == 2 && last == "github.com/nsqio/nsq/internal/http_api.V1") ||
+//@        (m == "POST" && p == "/channel/delete" && h == "(*github.com/nsqio/nsq/nsqlookupd.httpServer).doDeleteChannel" && n == 2 && last == "github.com/nsqio/nsq/internal/http_api.V1") ||
+//@        (m == "POST" && p == "/topic/tombstone" && h == "(*github.com/nsqio/nsq/nsqlookupd.httpServer).doTombstoneTopicProducer" && n == 2 && last == "github.com/nsqio/nsq/internal/http_api.V1")
+//@ pred r6MLkDebugRoute(m string, p string, h string, n int, last string) :=
+//@        (m == "GET" && p == "/debug/pprof" && h == "net/http/pprof.Index" && n == 0 && last == "") ||
+//@        (m == "GET" && p == "/debug/pprof/cmdline" && h == "net/http/pprof.Cmdline" && n == 0 && last == "") ||
+//@        (m == "GET" && p == "/debug/pprof/symbol" && h == "net/http/pprof.Symbol" && n == 0 && last == "") ||
+//@        (m == "POST" && p == "/debug/pprof/symbol" && h == "net/http/pprof.Symbol" && n == 0 && last == "") ||
+//@        (m == "GET" && p == "/debug/pprof/profile" && h == "net/http/pprof.Profile" && n == 0 && last == "") ||
+//@        (m == "GET" && p == "/debug/pprof/heap" && h == "heap" && n == 0 && last == "pprof.Handler") ||
+//@        (m == "GET" && p == "/debug/pprof/goroutine" && h == "goroutine" && n == 0 && last == "pprof.Handler") ||
+//@        (m == "GET" && p == "/debug/pprof/block" && h == "block" && n == 0 && last == "pprof.Handler") ||
+//@        (m == "GET" && p == "/debug/pprof/threadcreate" && h == "threadcreate" && n == 0 && last == "pprof.Handler")
+//@ pred r6MLkRoute(m string, p string, h string, n int, last string) := r6MLkApiRoute(m, p, h, n, last) || r6MLkDebugRoute(m, p, h, n, last)
+//@ pred r6MLkIsGetPath(p string) := p == "/ping" || p == "/info" || p == "/debug" || p == "/lookup" || p == "/topics" || p == "/channels" || p == "/nodes" || p == "/debug/pprof" ||
+//@        p == "/debug/pprof/cmdline" || p == "/debug/pprof/symbol" || p == "/debug/pprof/profile" || p == "/debug/pprof/heap" || p == "/debug/pprof/goroutine" || p == "/debug/pprof/block" ||
+//@        p == "/debug/pprof/threadcreate"
+//@ pred r6MLkIsPostPath(p string) := p == "/topic/create" || p == "/topic/delete" || p == "/channel/create" || p == "/channel/delete" || p == "/topic/tombstone" || p == "/debug/pprof/symbol"
 //@ func newHTTPServer(l *NSQLookupd) *httpServer
 //@   props C15 C14
 //@   requires l != nil
@@ -137,8 +171,17 @@ package nsqlookupd
 //@   ensures[state-changing-calls-under-post] r5GRoute("POST", "/topic/create") && r5GRoute("POST", "/topic/delete") && r5GRoute("POST", "/channel/create") &&
 //@        r5GRoute("POST", "/channel/delete") && r5GRoute("POST", "/topic/tombstone")
 //@   ensures[route-count] r5GRouteCalls == old(r5GRouteCalls) + 21
+//   (round 6, area M) the tables are EXACT per method: a path is registered under GET / POST by this call IFF it is a documented one; no other
+//   method is used (so no state-changing call is reachable by GET); and EVERY registration is a row of r6MLkRoute: the (method, path) pair is
+//   bound to exactly the documented handler of this server with the documented response decorator outermost. Together: each documented
+//   (method, path) is served by its documented handler and by nothing else.
+//@   ensures[get-routes-exactly] forall p string :: {setin(r6MLkGetRoutes, p)} setin(r6MLkGetRoutes, p) <==> (old(setin(r6MLkGetRoutes, p)) || r6MLkIsGetPath(p))
+//@   ensures[post-routes-exactly] forall p string :: {setin(r6MLkPostRoutes, p)} setin(r6MLkPostRoutes, p) <==> (old(setin(r6MLkPostRoutes, p)) || r6MLkIsPostPath(p))
+//@   ensures[no-other-method] r6MLkOtherMethodRoutes == old(r6MLkOtherMethodRoutes)
+//@   ensures[every-route-has-its-documented-handler-and-decorator] r6MLkOffTable == old(r6MLkOffTable)
+//@   ensures[wrong-method-is-405] dyntype(result.router) == typetag("*httprouter.Router") && unbox(result.router, "*httprouter.Router") != nil && unbox(result.router, "*httprouter.Router").HandleMethodNotAllowed
 //@   ensures[registry-untouched] mAddCalls == old(mAddCalls) && mRemCalls == old(mRemCalls) && mTombCalls == old(mTombCalls)
-//@   modifies r5GRoutes
+//@   modifies r5GRoutes, r5HDecorations, r6MPprofFor
 
 // ServeHTTP: every request is handed to the router exactly once, with the writer and the request it came with.
 //@ func (s *httpServer) ServeHTTP(w http.ResponseWriter, req *http.Request)
@@ -155,4 +198,4 @@ package nsqlookupd
 //@   ensures[both-servers-started] r5GWraps == old(r5GWraps) + 2 && r5GWrapOn == &l.waitGroup && r5GPrevWrapOn == &l.waitGroup
 //@   ensures[http-routes-registered] r5GRouteCalls == old(r5GRouteCalls) + 21 && r5GRoute("GET", "/lookup") && r5GRoute("GET", "/nodes") && r5GRoute("POST", "/topic/tombstone")
 //@   ensures[registry-untouched] mAddCalls == old(mAddCalls) && mRemCalls == old(mRemCalls) && mTombCalls == old(mTombCalls)
-//@   modifies r5GRoutes, r5GWraps
+//@   modifies r5GRoutes, r5GWraps, r5HDecorations, r6MPprofFor
